@@ -1,11 +1,12 @@
 // source.go — the SOURCE-DERIVED half of the TABLES tie (C04/C05/C06).
 //
-//	src writers : go/ast pass over $VERIF_REPO (root package, no tests): every function that assigns a field of Host or
-//	              MACEntry, writes HostTable.Table / MACTable.Table (assignment, delete) or builds a Host / MACEntry
-//	              literal, with the set of fields it writes, as "Recv.func:field+field;..." sorted.  The model column is
-//	              the list the model's steps were transcribed from (Extract/D05.v, [writers_expected]): a new writer, a
-//	              writer that touches another field, or a writer that disappeared changes the line.  Local names,
-//	              receivers' names, statement order, comments and formatting do not.
+//	src writers : go/ast pass over $VERIF_REPO (root package, no tests): for every API ENTRY POINT of the statements (Parse,
+//	              Notify, DHCPv4Update, SetDHCPv4IPOffer, Capture, Release, purge through its hook, NewSession, the five
+//	              Update*Name) the set of Host / MACEntry fields and tables it writes, directly or TRANSITIVELY through
+//	              unexported helpers (resolved by bare name); T{f: v} counts like x.f = v.  The model column is the list
+//	              the model's steps were transcribed from (Extract/D05.v, [writers_expected]): a NEW field written from an
+//	              entry point, or a field no longer written, changes the line.  Names of unexported helpers, accessors,
+//	              goroutine bodies turned into methods, literals vs assignments, statement order do not.
 //	src consts  : the constants the model and the harness hard-code, read from the built library: default deadlines,
 //	              the limits NewSession enforces (probed through NewSession itself), the capacity of Session.C.
 package main
@@ -36,136 +37,188 @@ func sourceWriters() string {
 	if err != nil {
 		return "parse-error"
 	}
+	p := pkgs["packet"]
+	if p == nil {
+		return "no-package"
+	}
 	tracked := map[string]map[string]bool{"Host": {}, "MACEntry": {}}
-	for _, p := range pkgs {
-		for _, f := range p.Files {
-			ast.Inspect(f, func(n ast.Node) bool {
-				ts, ok := n.(*ast.TypeSpec)
-				if !ok {
-					return true
-				}
-				st, ok := ts.Type.(*ast.StructType)
-				if !ok || tracked[ts.Name.Name] == nil {
-					return true
-				}
-				for _, fl := range st.Fields.List {
-					for _, nm := range fl.Names {
-						tracked[ts.Name.Name][nm.Name] = true
-					}
-				}
+	for _, f := range p.Files {
+		ast.Inspect(f, func(n ast.Node) bool {
+			ts, ok := n.(*ast.TypeSpec)
+			if !ok {
 				return true
-			})
-		}
+			}
+			st, ok := ts.Type.(*ast.StructType)
+			if !ok || tracked[ts.Name.Name] == nil {
+				return true
+			}
+			for _, fl := range st.Fields.List {
+				for _, nm := range fl.Names {
+					tracked[ts.Name.Name][nm.Name] = true
+				}
+			}
+			return true
+		})
 	}
 	isField := func(n string) bool {
-		if n == "MAC" || n == "Row" { // MACEntry.MAC is only set in its literal; "MAC" is a field of many other structs
+		if n == "MAC" || n == "Row" { // "MAC" is a field of many other structs; Row is the lock
 			return false
 		}
 		return tracked["Host"][n] || tracked["MACEntry"][n]
 	}
-	res := map[string]map[string]bool{}
-	for _, p := range pkgs {
-		if p.Name != "packet" {
-			continue
-		}
-		for _, f := range p.Files {
-			for _, d := range f.Decls {
-				fd, ok := d.(*ast.FuncDecl)
-				if !ok || fd.Body == nil {
-					continue
+	// per function (keyed by bare name: helpers are resolved by name only): the fields it writes itself and the
+	// names it calls
+	type fn struct {
+		recv   string
+		writes map[string]bool
+		calls  map[string]bool
+	}
+	funcs := map[string][]*fn{}
+	var all []struct {
+		name string
+		f    *fn
+	}
+	for _, f := range p.Files {
+		for _, d := range f.Decls {
+			fd, ok := d.(*ast.FuncDecl)
+			if !ok || fd.Body == nil {
+				continue
+			}
+			recv := ""
+			if fd.Recv != nil && len(fd.Recv.List) == 1 {
+				t := fd.Recv.List[0].Type
+				if s, ok := t.(*ast.StarExpr); ok {
+					t = s.X
 				}
-				name, recv := fd.Name.Name, ""
-				if fd.Recv != nil && len(fd.Recv.List) == 1 {
-					t := fd.Recv.List[0].Type
-					if s, ok := t.(*ast.StarExpr); ok {
-						t = s.X
-					}
-					if id, ok := t.(*ast.Ident); ok {
-						recv = id.Name
-						name = recv + "." + name
-					}
+				if id, ok := t.(*ast.Ident); ok {
+					recv = id.Name
 				}
-				if strings.HasPrefix(fd.Name.Name, "Verif") || recv == "NameEntry" {
-					continue // hooks of the verification build; NameEntry has a Manufacturer field of its own
-				}
-				add := func(x string) {
-					if res[name] == nil {
-						res[name] = map[string]bool{}
-					}
-					res[name][x] = true
-				}
-				tableOf := func(e ast.Expr) string { // h.HostTable.Table / h.Table inside HostTable/MACTable methods
-					se, ok := e.(*ast.SelectorExpr)
-					if !ok || se.Sel.Name != "Table" {
-						return ""
-					}
-					if in, ok := se.X.(*ast.SelectorExpr); ok && (in.Sel.Name == "HostTable" || in.Sel.Name == "MACTable") {
-						return in.Sel.Name + ".Table"
-					}
-					if recv == "HostTable" || recv == "MACTable" {
-						return recv + ".Table"
-					}
+			}
+			if recv == "NameEntry" { // has a Manufacturer field of its own
+				continue
+			}
+			x := &fn{recv: recv, writes: map[string]bool{}, calls: map[string]bool{}}
+			tableOf := func(e ast.Expr) string {
+				se, ok := e.(*ast.SelectorExpr)
+				if !ok || se.Sel.Name != "Table" {
 					return ""
 				}
-				lhs := func(e ast.Expr) {
-					if ix, ok := e.(*ast.IndexExpr); ok {
-						if t := tableOf(ix.X); t != "" {
-							add(t)
-							return
-						}
-						e = ix.X
-					}
-					if t := tableOf(e); t != "" {
-						add(t)
+				if in, ok := se.X.(*ast.SelectorExpr); ok && (in.Sel.Name == "HostTable" || in.Sel.Name == "MACTable") {
+					return in.Sel.Name + ".Table"
+				}
+				if recv == "HostTable" || recv == "MACTable" {
+					return recv + ".Table"
+				}
+				return ""
+			}
+			lhs := func(e ast.Expr) {
+				if ix, ok := e.(*ast.IndexExpr); ok {
+					if t := tableOf(ix.X); t != "" {
+						x.writes[t] = true
 						return
 					}
-					if se, ok := e.(*ast.SelectorExpr); ok && isField(se.Sel.Name) {
-						add(se.Sel.Name)
-					}
+					e = ix.X
 				}
-				ast.Inspect(fd.Body, func(n ast.Node) bool {
-					switch s := n.(type) {
-					case *ast.AssignStmt:
-						for _, l := range s.Lhs {
-							lhs(l)
-						}
-					case *ast.IncDecStmt:
-						lhs(s.X)
-					case *ast.CallExpr:
-						if id, ok := s.Fun.(*ast.Ident); ok && id.Name == "delete" && len(s.Args) == 2 {
+				if t := tableOf(e); t != "" {
+					x.writes[t] = true
+					return
+				}
+				if se, ok := e.(*ast.SelectorExpr); ok && isField(se.Sel.Name) {
+					x.writes[se.Sel.Name] = true
+				}
+			}
+			ast.Inspect(fd.Body, func(n ast.Node) bool {
+				switch s := n.(type) {
+				case *ast.AssignStmt:
+					for _, l := range s.Lhs {
+						lhs(l)
+					}
+				case *ast.IncDecStmt:
+					lhs(s.X)
+				case *ast.CallExpr:
+					switch c := s.Fun.(type) {
+					case *ast.Ident:
+						if c.Name == "delete" && len(s.Args) == 2 {
 							if t := tableOf(s.Args[0]); t != "" {
-								add(t)
+								x.writes[t] = true
 							}
 						}
-					case *ast.CompositeLit:
-						if id, ok := s.Type.(*ast.Ident); ok && (id.Name == "Host" || id.Name == "MACEntry") {
-							add("new(" + id.Name + ")")
+						x.calls[c.Name] = true
+					case *ast.SelectorExpr:
+						x.calls[c.Sel.Name] = true
+					}
+				case *ast.CompositeLit: // T{f: v} writes f exactly like x.f = v
+					if id, ok := s.Type.(*ast.Ident); ok && (id.Name == "Host" || id.Name == "MACEntry") {
+						for _, el := range s.Elts {
+							if kv, ok := el.(*ast.KeyValueExpr); ok {
+								if k, ok := kv.Key.(*ast.Ident); ok && isField(k.Name) {
+									x.writes[k.Name] = true
+								}
+							}
 						}
 					}
-					return true
-				})
+				}
+				return true
+			})
+			funcs[fd.Name.Name] = append(funcs[fd.Name.Name], x)
+			name := fd.Name.Name
+			if recv != "" {
+				name = recv + "." + name
+			}
+			all = append(all, struct {
+				name string
+				f    *fn
+			}{name, x})
+		}
+	}
+	// the entry points: the API calls of the statements (exported; purge through its exported hook) and the five
+	// Update*Name methods.  Everything they write, directly or through any helper (resolved by bare name, unexported
+	// helpers only: an exported callee is an entry point of its own or outside the tables).
+	entries := map[string]string{"Config.NewSession": "NewSession", "Session.Parse": "Parse", "Session.Notify": "Notify",
+		"Session.DHCPv4Update": "DHCPv4Update", "Session.SetDHCPv4IPOffer": "SetDHCPv4IPOffer", "Session.Capture": "Capture",
+		"Session.Release": "Release", "Session.VerifPurge": "purge", "Host.UpdateDHCP4Name": "UpdateDHCP4Name",
+		"Host.UpdateMDNSName": "UpdateMDNSName", "Host.UpdateSSDPName": "UpdateSSDPName", "Host.UpdateLLMNRName": "UpdateLLMNRName",
+		"Host.UpdateNBNSName": "UpdateNBNSName"}
+	var out []string
+	for _, e := range all {
+		label, ok := entries[e.name]
+		if !ok {
+			continue
+		}
+		seen := map[*fn]bool{}
+		ws := map[string]bool{}
+		var visit func(x *fn)
+		visit = func(x *fn) {
+			if seen[x] {
+				return
+			}
+			seen[x] = true
+			for w := range x.writes {
+				ws[w] = true
+			}
+			for c := range x.calls {
+				if c == "" || (c[0] >= 'A' && c[0] <= 'Z') {
+					continue
+				}
+				for _, y := range funcs[c] {
+					visit(y)
+				}
 			}
 		}
-	}
-	var keys []string
-	for k := range res {
-		keys = append(keys, k)
-	}
-	sort.Strings(keys)
-	var out []string
-	for _, k := range keys {
+		visit(e.f)
 		var fs []string
-		for f := range res[k] {
-			fs = append(fs, f)
+		for w := range ws {
+			fs = append(fs, w)
 		}
 		sort.Strings(fs)
-		out = append(out, k+":"+strings.Join(fs, "+"))
+		out = append(out, label+":"+strings.Join(fs, "+"))
 	}
+	sort.Strings(out)
 	return strings.Join(out, ";")
 }
 
 // sourceClocks: every read of the wall clock (time.Now, time.Since, time.Until) in the four files the tables live in,
-// and every comparison of time stamps (Sub, Before, After), per enclosing function with its count: "file:Recv.func:Now*1+Since*1;...".  A NEW clock read there changes the line.
+// and every comparison of time stamps (Sub, Before, After), per file with its count: "file:Recv.func:Now*1+Since*1;...".  A NEW clock read there changes the line.
 func sourceClocks() string {
 	repo := os.Getenv("VERIF_REPO")
 	if repo == "" {
@@ -178,44 +231,24 @@ func sourceClocks() string {
 		if err != nil {
 			return "parse-error:" + file
 		}
-		for _, d := range f.Decls {
-			fd, ok := d.(*ast.FuncDecl)
-			if !ok || fd.Body == nil {
-				continue
-			}
-			name := fd.Name.Name
-			if fd.Recv != nil && len(fd.Recv.List) == 1 {
-				t := fd.Recv.List[0].Type
-				if s, ok := t.(*ast.StarExpr); ok {
-					t = s.X
-				}
-				if id, ok := t.(*ast.Ident); ok {
-					name = id.Name + "." + name
+		cnt := map[string]int{} // per FILE: functions are split, merged and renamed by refactorings, the reads stay
+		ast.Inspect(f, func(n ast.Node) bool {
+			if se, ok := n.(*ast.SelectorExpr); ok {
+				if id, ok := se.X.(*ast.Ident); ok && id.Name == "time" && (se.Sel.Name == "Now" || se.Sel.Name == "Since" || se.Sel.Name == "Until") {
+					cnt[se.Sel.Name]++
+				} else if se.Sel.Name == "Sub" || se.Sel.Name == "Before" || se.Sel.Name == "After" {
+					cnt["cmp"]++ // a comparison / difference of time stamps (time.Time methods)
 				}
 			}
-			cnt := map[string]int{}
-			ast.Inspect(fd.Body, func(n ast.Node) bool {
-				if se, ok := n.(*ast.SelectorExpr); ok {
-					if id, ok := se.X.(*ast.Ident); ok && id.Name == "time" && (se.Sel.Name == "Now" || se.Sel.Name == "Since" || se.Sel.Name == "Until") {
-						cnt[se.Sel.Name]++
-					} else if se.Sel.Name == "Sub" || se.Sel.Name == "Before" || se.Sel.Name == "After" {
-						cnt["cmp"]++ // a comparison / difference of time stamps (time.Time methods)
-					}
-				}
-				return true
-			})
-			if len(cnt) == 0 {
-				continue
-			}
-			var ks []string
-			for k, v := range cnt {
-				ks = append(ks, k+"*"+strconv.Itoa(v))
-			}
-			sort.Strings(ks)
-			out = append(out, file+":"+name+":"+strings.Join(ks, "+"))
+			return true
+		})
+		var ks []string
+		for k, v := range cnt {
+			ks = append(ks, k+"*"+strconv.Itoa(v))
 		}
+		sort.Strings(ks)
+		out = append(out, file+":"+strings.Join(ks, "+"))
 	}
-	sort.Strings(out)
 	return strings.Join(out, ";")
 }
 
